@@ -103,7 +103,7 @@ func main() {
 		r.Set("B_evaluations", lb.evals)
 		r.Set("B_expected_some_location", lb.nontrivial)
 		r.Set("B_failing_evaluations", lb.failing)
-		r.Set("B_stores", "cdb-combined, cdb-perfamily (db.SeparateBitMap), rdb-v1, rdb-v2")
+		r.Set("B_stores", "cdb-combined, cdb-perfamily (db.SeparateBitMap), rdb-v1, rdb-v2; large maps also rdb-v1-preproc, rdb-v2-preproc (preprocessor output compiled)")
 		r.Set("B_surroundings", lb.surroundings)
 		r.Set("B_large_maps", lb.nLarge)
 		r.Set("B_large_maps_min_range_points", lb.largeMinPoints)
@@ -129,7 +129,7 @@ func main() {
 	r.Set("evaluations", evals)
 	r.Set("traces_validated_against_impl", evals)
 	r.Set("distinct_nontrivial", nontriv)
-	r.Set("rule", "A: all sets of <=k distinct subnets (quick: <=2 over the whole alphabet and 3 over its 40-prefix part with trees of depth <=3; thorough: <=4 over the whole alphabet; each tagged with one of 2 locations, all taggings) from the alphabet {0.0.0.0/0, ::/0, 8 address-space edges, the 31-node binary tree /6../10 under 8.0.0.0/6, the 31-node tree /30../34 under 2001:db8::/30}; each set goes as '%' lines through the real Codec (Rnet.UnmarshalText, Accum, SubnetRanger, Rearranger.AddLocation/Rearrange, Rrangepoint.MarshalMap) and the resulting range-point keys are read by predecessor search as GetLocationByMap does, for every client of the universe (first/last/just-outside addresses of every alphabet prefix at lengths own-1, own, own+1, full; masked). B: all sets of <=2 subnets (quick: over the 24-prefix sub-alphabet with trees of depth 2; thorough: the full alphabet; taggings up to renaming) compiled by cdb.CreateCDBFromReader into CDB (read with the combined and with the per-family prefix-length sets) inside the surroundings listed under B_surroundings, and a fixed sub-space of these cases (B_rocksdb_selection) compiled by rdb.Compile to RocksDB v1 and v2 keys and looked up with Reader.ResolverLocation (full-length clients) and Reader.EcsLocation (all clients); plus the fixed large maps of B_large_map_list (each more than 100 range points: 60 disjoint IPv4 /24s, 130 adjacent /24s inside a /8 and a default route, 60 disjoint IPv6 /48s under ::/0, 120 nested subnets of both families) compiled to all four stores and looked up for the first/last/just-outside addresses of every member at lengths own-1, own, own+1, full (reported per map, not minimised). C: files of map declarations over 10 owners (root, com, example.com, a.example.com and an 11-label name, each exact and wildcard) x {M,8} as listed under C_file_rule, looked up for every query name of C_query_name_universe (13 shallow names; a ladder of 9..14-label names below a.example.com through the deep owner, a sibling of the deep owner, a 35-label name, the 255-byte names of 123 labels and of 63+63+63+47-byte labels, a 34-label ip6.arpa name). states = subnet sets (A) + compiled databases (B, C); transitions = evaluations = client (or name) lookups compared with the oracle; nontrivial = lookups for which the oracle expects a location (A, B) or a map (C). Only minimal failing cases are reported: a set whose failure (same client, same kind of disagreement) is not shown by an enumerated proper subset on the same store. No wall-clock bound is used anywhere; exhaustive=true means every case of the stated space was executed.")
+	r.Set("rule", "A: all sets of <=k distinct subnets (quick: <=2 over the whole alphabet and 3 over its 40-prefix part with trees of depth <=3; thorough: <=4 over the whole alphabet; each tagged with one of 2 locations, all taggings) from the alphabet {0.0.0.0/0, ::/0, 8 address-space edges, the 31-node binary tree /6../10 under 8.0.0.0/6, the 31-node tree /30../34 under 2001:db8::/30}; each set goes as '%' lines through the real Codec (Rnet.UnmarshalText, Accum, SubnetRanger, Rearranger.AddLocation/Rearrange, Rrangepoint.MarshalMap) and the resulting range-point keys are read by predecessor search as GetLocationByMap does, for every client of the universe (first/last/just-outside addresses of every alphabet prefix at lengths own-1, own, own+1, full; masked). B: all sets of <=2 subnets (quick: over the 24-prefix sub-alphabet with trees of depth 2; thorough: the full alphabet; taggings up to renaming) compiled by cdb.CreateCDBFromReader into CDB (read with the combined and with the per-family prefix-length sets) inside the surroundings listed under B_surroundings, and a fixed sub-space of these cases (B_rocksdb_selection) compiled by rdb.Compile to RocksDB v1 and v2 keys and looked up with Reader.ResolverLocation (full-length clients) and Reader.EcsLocation (all clients); plus the fixed large maps of B_large_map_list (each more than 100 range points: 60 disjoint IPv4 /24s, 130 adjacent /24s inside a /8 and a default route, 60 disjoint IPv6 /48s under ::/0, 120 nested subnets of both families) compiled to all four stores and, through the preprocessor (dnsdata.Codec.Preprocess as cmd/dnsrocks-preproc configures it, then rdb.Compile of its output), to RocksDB v1 and v2 again, and looked up for the first/last/just-outside addresses of every member at lengths own-1, own, own+1, full (reported per map, not minimised). C: files of map declarations over 10 owners (root, com, example.com, a.example.com and an 11-label name, each exact and wildcard) x {M,8} as listed under C_file_rule, looked up for every query name of C_query_name_universe (13 shallow names; a ladder of 9..14-label names below a.example.com through the deep owner, a sibling of the deep owner, a 35-label name, the 255-byte names of 123 labels and of 63+63+63+47-byte labels, a 34-label ip6.arpa name). states = subnet sets (A) + compiled databases (B, C); transitions = evaluations = client (or name) lookups compared with the oracle; nontrivial = lookups for which the oracle expects a location (A, B) or a map (C). Only minimal failing cases are reported: a set whose failure (same client, same kind of disagreement) is not shown by an enumerated proper subset on the same store. No wall-clock bound is used anywhere; exhaustive=true means every case of the stated space was executed.")
 	r.Assume = []string{
 		"IPv6-family clients inside ::ffff:0:0/96 with prefix length >=96 are not generated (the statement does not say which family they belong to)",
 		"level B enumerates location taggings up to renaming of the two locations (level A enumerates all taggings)",
